@@ -437,6 +437,7 @@ Step(S, e) ==
 
     [] e.e = "DedupCall" ->
         \* task e.t called the deduplicated function for call site e.a and was handed task e.b
+        IF e.b = 0 THEN [S |-> S, bad |-> {"C12.task"}] ELSE      \* .asynq() handed back something that is not a future at all
         LET K == DedupKey(P, e.a)
             w0 == IF K \in DOMAIN S.dreg THEN S.dreg[K] ELSE 0
             inflight == w0 # 0 /\ ~FutDone(S, w0)
